@@ -254,47 +254,80 @@ def signal_handler_table():
     return rows
 
 
-def terminate_child_arms():
-    """unix.rs `terminate_child`: what the Stop and Continue arms of its request loop do, statement by statement, as
-    (guard, action) pairs — guard "" = unconditional."""
-    src = strip_comments(read("nextest-runner/src/runner/unix.rs"))
-    m = re.search(r"async fn terminate_child", src)
-    if not m: raise RuntimeError("unix.rs: terminate_child not found")
+def request_arms(src, fn_name, keys):
+    """The arms of the `match req` inside `fn_name`'s request loop, each as a list of (guard, [actions]): a statement is
+    `X.pause()` / `X.resume()` (→ `X.pause` / `X.resume`), the acknowledgement of a Stop (→ `ack`), `job_control_child(…, E)`
+    (→ `job_control:E`), the group-wide SIGKILL (→ `kill-group`), an information response (→ `info`), or `break` (→ `break`, with
+    its value if it has one); `if X.is_paused() { … }` groups its statements under the guard `X.is_paused`."""
+    m = re.search(r"async fn " + fn_name + r"\b", src)
+    if not m: raise RuntimeError(f"{fn_name} not found")
     body = src[m.end():]
-    def arm(name, pat):
-        mm = re.search(pat, body)
-        if not mm: raise RuntimeError(f"terminate_child: {name} arm not found")
-        i = mm.end(); depth = 1; j = i
+    nxt = re.search(r"\n(?:pub(?:\(\w+\))? )?(?:async )?fn \w+", body)
+    if nxt: body = body[:nxt.start()]
+    def block(after):
+        i = after; depth = 1; j = i
         while depth and j < len(body):
             depth += {"{": 1, "}": -1}.get(body[j], 0); j += 1
-        return re.sub(r"\s+", " ", body[i:j - 1]).strip()
-    def stmt(t, guard):
-        t = t.strip().replace(".as_mut()", "")
+        return body[i:j - 1], j
+    def stmt(t):
+        t = re.sub(r"\s+", " ", t).strip().replace(".as_mut()", "")
         if not t: return []
         r = re.fullmatch(r"(\w+)\.(pause|resume)\(\)", t)
-        if r: return [(guard, f"{r.group(1)}.{r.group(2)}")]
+        if r: return [f"{r.group(1)}.{r.group(2)}"]
         r = re.fullmatch(r"job_control_child\(child, JobControlEvent::(\w+)\)", t)
-        if r: return [(guard, f"job_control:{r.group(1)}")]
-        if re.fullmatch(r"let _ = sender\.send\(\(\)\)", t): return [(guard, "ack")]
-        raise RuntimeError(f"terminate_child: unrecognised statement `{t}`")
-    def parse(text):
-        out = []; rest = text
-        while rest.strip():
-            rest = rest.strip()
-            r = re.match(r"if (\w+)\.is_paused\(\) \{(.*?)\}", rest)
-            if r:
-                for t in r.group(2).split(";"): out += stmt(t, r.group(1) + ".is_paused")
-                rest = rest[r.end():]; continue
-            k = rest.find(";")
-            if k < 0: raise RuntimeError(f"terminate_child: unterminated statement `{rest[:60]}`")
-            out += stmt(rest[:k], ""); rest = rest[k + 1:]
+        if r: return [f"job_control:{r.group(1)}"]
+        if re.fullmatch(r"(?:let )?_ = (?:sender|tx)\.send\(\(\)\)", t): return ["ack"]
+        if re.fullmatch(r"unsafe \{ libc::kill\(-pid_i32, SIGKILL\) ?;? \}", t): return ["kill-group"]
+        r = re.fullmatch(r"break(?: (\w+(?:::\w+)*))?", t)
+        if r: return ["break" + (":" + r.group(1).split("::")[-1] if r.group(1) else "")]
+        if re.fullmatch(r"let \w+ = \w+\.snapshot\(\)", t): return []
+        if re.match(r"(?:let )?_ = (?:sender|tx)\.send\( ?\w+\.info_response\(", t): return ["info"]
+        raise RuntimeError(f"{fn_name}: unrecognised statement `{t[:80]}`")
+    def split_top(text):
+        # statements at nesting depth 0, `if … { … }` kept whole
+        out = []; depth = 0; cur = ""
+        k = 0
+        while k < len(text):
+            ch = text[k]
+            if ch in "({[": depth += 1
+            if ch in ")}]": depth -= 1
+            cur += ch
+            if depth == 0 and (ch == ";" or (ch == "}" and re.match(r"\s*(?:if|unsafe) ", cur))):
+                out.append(cur.rstrip(";")); cur = ""
+            k += 1
+        if cur.strip(): out.append(cur)
         return out
-    stop = parse(arm("Stop", r"RunUnitRequest::Signal\(SignalRequest::Stop\(sender\)\) => \{"))
-    cont = parse(arm("Continue", r"RunUnitRequest::Signal\(SignalRequest::Continue\) => \{"))
-    return stop, cont
+    def parse(text):
+        rows = []
+        for t in split_top(text):
+            t = t.strip()
+            r = re.match(r"if (\w+)\.is_paused\(\) \{(.*)\}$", t, re.S)
+            if r:
+                acts = []
+                for u in split_top(r.group(2)): acts += stmt(u)
+                rows.append((r.group(1) + ".is_paused", acts)); continue
+            a = stmt(t)
+            if a: rows.append(("", a))
+        return rows
+    arms = {}
+    for key, pat in keys.items():
+        mm = re.search(pat + r" => \{", body)
+        if not mm: raise RuntimeError(f"{fn_name}: {key} arm not found")
+        text, _ = block(mm.end())
+        arms[key] = parse(text)
+    return arms
 
 
-GROUPS = ["cancel", "mismatch", "exit", "setdef", "escape", "signals", "sighandler", "termchild", "placeholders", "xml"]
+ARM_KEYS = {"Stop": r"RunUnitRequest::Signal\(SignalRequest::Stop\(\w+\)\)", "Continue": r"RunUnitRequest::Signal\(SignalRequest::Continue\)",
+            "Shutdown": r"RunUnitRequest::Signal\(SignalRequest::Shutdown\(_\)\)", "OtherCancel": r"RunUnitRequest::OtherCancel",
+            "GetInfo": r"RunUnitRequest::Query\(RunUnitQuery::GetInfo\(\w+\)\)"}
+
+
+def lean_arm(rows):
+    return "[" + ", ".join('("' + g + '", [' + ", ".join(f'"{a}"' for a in acts) + "])" for g, acts in rows) + "]"
+
+
+GROUPS = ["cancel", "mismatch", "exit", "setdef", "escape", "signals", "sighandler", "termchild", "delayloop", "placeholders", "xml"]
 
 
 def group_lines(g):
@@ -343,11 +376,15 @@ def group_lines(g):
         return ["/-- signal.rs (unix): every registered signal and the event `recv` turns it into (the debug-only SIGQUIT-as-info switch off) -/",
                 "def signalHandlerTable : List (String × String) := [" + ", ".join(f'("{a}", "{b}")' for a, b in sigh) + "]"]
     if g == "termchild":
-        stop, cont = terminate_child_arms()
-        f = lambda rows: "[" + ", ".join(f'("{a}", "{b}")' for a, b in rows) + "]"
-        return ["/-- unix.rs `terminate_child`, the Stop and the Continue arm of its request loop: (guard, action) in order, guard \"\" = unconditional -/",
-                f"def terminateChildStopArm : List (String × String) := {f(stop)}",
-                f"def terminateChildContinueArm : List (String × String) := {f(cont)}"]
+        arms = request_arms(strip_comments(read("nextest-runner/src/runner/unix.rs")), "terminate_child", {k: ARM_KEYS[k] for k in ("Stop", "Continue", "Shutdown")})
+        return ["/-- unix.rs `terminate_child`, arms of its request loop: (guard, actions) in order, guard \"\" = unconditional -/",
+                f"def terminateChildStopArm : List (String × List String) := {lean_arm(arms['Stop'])}",
+                f"def terminateChildContinueArm : List (String × List String) := {lean_arm(arms['Continue'])}",
+                f"def terminateChildShutdownArm : List (String × List String) := {lean_arm(arms['Shutdown'])}"]
+    if g == "delayloop":
+        arms = request_arms(strip_comments(read("nextest-runner/src/runner/executor.rs")), "handle_delay_between_attempts", ARM_KEYS)
+        return ["/-- executor.rs `handle_delay_between_attempts`, arms of its request loop -/"] + [
+                f"def delay{k}Arm : List (String × List String) := {lean_arm(arms[k])}" for k in ("Stop", "Continue", "Shutdown", "OtherCancel", "GetInfo")]
     if g == "placeholders":
         ph = junit_placeholders()
         return ["/-- junit.rs: the texts stored in place of a stream that does not exist -/",
